@@ -38,6 +38,8 @@ class HllArray : public HllSketchImpl<A> {
 
     static HllArray* newHll(const void* bytes, size_t len, const A& allocator);
     static HllArray* newHll(std::istream& is, const A& allocator);
+    static void checkAuxTokens(const uint8_t* hll4Array, size_t arrayBytes, uint32_t auxCount);
+    static void checkCounts(target_hll_type tgtHllType, uint8_t lgConfigK, uint32_t numAtCurMin, uint32_t auxCount);
 
     virtual vector_bytes serialize(bool compact, unsigned header_size_bytes) const;
     virtual void serialize(std::ostream& os, bool compact) const;
